@@ -120,7 +120,7 @@ struct C11 : Property
 		size_t created_len = 0;
 	};
 
-	void verify(RunCtx &ctx, Node &n, size_t oi, const char *after)
+	void verify(RunCtx &ctx, Node &n, size_t oi, const char *after, bool deep = true)
 	{
 		if (!n.o)
 			return;
@@ -139,6 +139,43 @@ struct C11 : Property
 		}
 		if (s[n.bytes.size()] != '\0')
 			ctx.fail("C11:missing-terminator", "op %zu (%s): byte after the %zu content bytes is 0x%02x", oi, after, n.bytes.size(), (unsigned char)s[n.bytes.size()]);
+		// "preserved through any mutation history": whatever is read from the node - also through the coercing accessors and the
+		// serializer flags - must be what a string node created directly with these bytes gives (the storage mode reached by the
+		// history must not show)
+		if (!deep)
+			return;
+		disarm_faults();
+		struct json_object *twin = LIB(json_object_new_string_len(n.bytes.data(), (int)n.bytes.size()));
+		if (twin)
+		{
+			auto obs = [&](struct json_object *o) {
+				std::string r;
+				errno = 0;
+				r += "bool=" + std::to_string(LIB(json_object_get_boolean(o)));
+				r += ";int=" + std::to_string(LIB(json_object_get_int(o)));
+				r += ";i64=" + std::to_string((long long)LIB(json_object_get_int64(o)));
+				r += ";u64=" + std::to_string((unsigned long long)LIB(json_object_get_uint64(o)));
+				double d = LIB(json_object_get_double(o));
+				uint64_t bits;
+				memcpy(&bits, &d, sizeof bits);
+				r += ";dbl=" + std::to_string((unsigned long long)bits);
+				r += ";type=" + std::to_string((int)LIB(json_object_get_type(o)));
+				for (int fl : {0, (int)JSON_C_TO_STRING_NOSLASHESCAPE, (int)(JSON_C_TO_STRING_PRETTY | JSON_C_TO_STRING_SPACED)})
+				{
+					size_t sl = 0;
+					const char *t = LIB(json_object_to_json_string_length(o, fl, &sl));
+					r += ";ser" + std::to_string(fl) + "=" + (t ? hexenc(std::string(t, sl)) : std::string("NULL"));
+				}
+				return r;
+			};
+			std::string a = obs(n.o), b = obs(twin);
+			if (a != b)
+				ctx.fail("C11:history-shows-through-accessor", "op %zu (%s): node after its history reads %s ; a fresh node with the same %zu bytes reads %s", oi, after, a.substr(0, 300).c_str(),
+				         n.bytes.size(), b.substr(0, 300).c_str());
+			if (!LIB(json_object_equal(n.o, twin)) || !LIB(json_object_equal(twin, n.o)))
+				ctx.fail("C11:equal-mismatch", "op %zu (%s): the node does not compare equal to a fresh node holding the same bytes", oi, after);
+			LIBV(json_object_put(twin));
+		}
 	}
 
 	void run(const Plan &p, RunCtx &ctx) override
@@ -352,7 +389,7 @@ struct C11 : Property
 			ctx.log("op %zu %s node=%d len=%zu", oi, op.kind.c_str(), ni, nodes[ni].bytes.size());
 			ctx.cover(cov);
 			for (auto &n : nodes)
-				verify(ctx, n, oi, op.kind.c_str());
+				verify(ctx, n, oi, op.kind.c_str(), op.kind == "set" || op.kind == "new" || oi + 1 == p.ops.size());
 		}
 		for (auto &n : nodes)
 			if (n.o)
